@@ -118,7 +118,7 @@ def run(ctx, rep) -> None:
     repo = ctx.repo
     pts = ctx.engine("pts")
     rep.rule("C03.5", "the diagonal flag is exact (no tolerance) and is cleared before the matrix routine sees a non-diagonal factor")
-    exact_diagonal_flag(ctx, rep, "C03.5")
+    rep.attempt("exact_diagonal_flag", exact_diagonal_flag, ctx, rep, "C03.5")
     rep.rule("C03.1", "the eigenbasis refresh precedes the corrected-eigenvalue update, which runs on every update_preconditioners call")
     rep.rule("C03.2", "precondition(): rotate -> divide -> rotate back, same basis / selector / guard, transposed contraction; the accumulator update rotates under the same predicate; ignored dims are only permuted")
     rep.rule("C03.3", "basis refreshed only under the schedule flag; eigenvectors and corrected eigenvalues written only by their own updates")
@@ -186,15 +186,18 @@ def run(ctx, rep) -> None:
         ok = isinstance(b.test, ast.Name) and b.test.id == lam[0].args.args[1].arg and "tensordot" in _norm(b.body) and "tensordot" not in _norm(b.orelse) and "permute" in _norm(b.orelse) and "next(" in _norm(b.body) and "next(" not in _norm(b.orelse)
     rep.ob("C03.2", "ignored-dims-only-permuted", ok, pg.loc(), "in _precondition_grad a non-selected dimension is rotated to the back without contraction and without consuming a preconditioner", sample=True)
     # ---- C03.3
-    _amortized_guard(ctx, _Proxy(rep, "C01.3", "C03.3"))
-    who_may_write(ctx, rep, "C03.3", only_kinds={"factor_matrices_eigenvectors", "corrected_eigenvalues", "factor_matrices"}, include_params=False)
+    rep.attempt("_amortized_guard", _amortized_guard, ctx, _Proxy(rep, "C01.3", "C03.3"))
+    rep.attempt("who_may_write", who_may_write, ctx, rep, "C03.3", only_kinds={"factor_matrices_eigenvectors", "corrected_eigenvalues", "factor_matrices"}, include_params=False)
     # ---- C03.4
-    dtype_rules(ctx, rep, "C03.4")
-    from .arith import factor_arithmetic, soap_arithmetic
+    rep.attempt("dtype_rules", dtype_rules, ctx, rep, "C03.4")
+    from .arith import factor_arithmetic, qr_iteration_arithmetic, soap_arithmetic
+
+    rep.rule("C03.7", "QR method: one orthogonal iteration Q <- qr(A @ Q).Q with the relative-change stopping rule, Rayleigh-quotient column order, zero-estimate fallback (exact term comparison)")
+    rep.attempt("qr_iteration_arithmetic", qr_iteration_arithmetic, ctx, rep, "C03.7")
 
     rep.rule("C03.6", "arithmetic of SOAP: C <- C + rot(G)^2 | beta2*C + (1-beta2)*rot(G)^2; direction = rot_back(rot(G) / (C/bias_correction2 + eps)^(1/root)); factor accumulation (exact term comparison)")
-    soap_arithmetic(ctx, rep, "C03.6")
-    factor_arithmetic(ctx, rep, "C03.6")
+    rep.attempt("soap_arithmetic", soap_arithmetic, ctx, rep, "C03.6")
+    rep.attempt("factor_arithmetic", factor_arithmetic, ctx, rep, "C03.6")
     rep.assume("orthonormality, diagonalisation and that the QR result is the orthogonal-iteration update are numerical and NOT decided")
 
 
